@@ -91,7 +91,9 @@ const GL_W: [f64; 8] = [
 /// composite 16-point Gauss-Legendre. Relative accuracy ~1e-16 for every psi in [0, pi/2].
 fn cap_integral(psi: f64) -> f64 {
     let e2 = e2();
-    let panels = 8;
+    // the integrand is entire and slowly varying: one 16-point panel is exact to rounding on short
+    // intervals, eight panels on the full quarter circle
+    let panels = if psi < 0.05 { 1 } else if psi < 0.4 { 3 } else { 8 };
     let mut total = 0.0;
     for k in 0..panels {
         let a = psi * k as f64 / panels as f64;
@@ -113,8 +115,13 @@ fn cap_integral(psi: f64) -> f64 {
 
 /// authalic colatitude (from the nearer pole) for geodetic colatitude psi in [0, pi/2]:
 /// 2 sin^2(psi'/2) = I(psi) / I(pi/2)   (equal cap areas)
+fn cap_full() -> f64 {
+    static FULL: std::sync::OnceLock<f64> = std::sync::OnceLock::new();
+    *FULL.get_or_init(|| cap_integral(PI / 2.0))
+}
+
 pub fn authalic_colat(psi: f64) -> f64 {
-    let full = cap_integral(PI / 2.0);
+    let full = cap_full();
     let r = (cap_integral(psi) / (2.0 * full)).sqrt();
     2.0 * r.min(1.0).asin()
 }
@@ -125,7 +132,7 @@ pub fn geodetic_colat(psia: f64) -> f64 {
         return 0.0;
     }
     let e2 = e2();
-    let full = cap_integral(PI / 2.0);
+    let full = cap_full();
     let h = (psia / 2.0).sin();
     let target = 2.0 * full * h * h;
     let mut psi = psia;
